@@ -28,6 +28,7 @@ var generators = map[string]func(*Gen){
 	"C17": genC17,
 	"C18": genC18,
 	"C19": genC19,
+	"C20": genC20,
 }
 
 func main() {
